@@ -70,9 +70,18 @@ package mpbgv
 // ---- masked transform / refresh (property C16, "the result ... decrypts to the same plaintext"): on
 // ---- success the output ciphertext carries the metadata of the INPUT (its scale in particular:
 // ---- the payload is re-encrypted at the input's scale), whatever the receiver held (finding F38)
+// the party that finishes the conversion to shares gets the reduction to R_t of (aggregate + c0) - the masked
+// decryption; uf_q2t names the reduction R_Q -> R_t - plus its own additive share when it has one
 //@ afunc EncToShareProtocol.GetShare
-//@   trusted the decryption share of the mask (integer encoder path): writes the additive share only
-//@   assigns secretShareOut
+//@   property C16
+//@   assigns secretShareOut.Value
+//@   case true ; set secretShare = nil
+//@   case true
+//@   requires ct.MetaData.CiphertextMetaData.IsNTT && isntt(ct.Value[0]) && isntt(aggregatePublicShare.Value) && mexp(ct.Value[0]) == 0 && mexp(aggregatePublicShare.Value) == 0 && dom(ct.Value[0]) == 1 && dom(aggregatePublicShare.Value) == 1
+//@   requires implies(!isnil(secretShare), iscoef(secretShare.Value) && mexp(secretShare.Value) == 0 && dom(secretShare.Value) == 0)
+//@   requires len(ct.Value[0].Coeffs) >= 1 && len(aggregatePublicShare.Value.Coeffs) >= 1
+//@   ensures implies(isnil(secretShare), val(secretShareOut.Value) == uf_q2t(old(val(aggregatePublicShare.Value)) + old(val(ct.Value[0]))))
+//@   ensures implies(!isnil(secretShare), val(secretShareOut.Value) == old(val(secretShare.Value)) + uf_q2t(old(val(aggregatePublicShare.Value)) + old(val(ct.Value[0]))))
 //@ afunc MaskedTransformProtocol.Transform
 //@   property C16
 //@   callback the user's transform acts on the slice of plaintext values it is given (documented contract of MaskedTransformFunc.Func)
@@ -81,7 +90,11 @@ package mpbgv
 //@   case true ; alias ciphertextOut = ct
 //@   requires len(ciphertextOut.Value) == 2
 //@   requires isntt(share.ShareToEncShare.Value) && mexp(share.ShareToEncShare.Value) == 0
+//@   requires ct.MetaData.CiphertextMetaData.IsNTT && isntt(ct.Value[0]) && isntt(share.EncToShareShare.Value) && mexp(ct.Value[0]) == 0 && mexp(share.EncToShareShare.Value) == 0 && dom(ct.Value[0]) == 1 && dom(share.EncToShareShare.Value) == 1
+//@   requires len(ct.Value[0].Coeffs) >= 1 && len(share.EncToShareShare.Value.Coeffs) >= 1
 //@   ensures implies(isnil(err), sameval(ciphertextOut.MetaData.PlaintextMetaData.Scale, old(ct.MetaData.PlaintextMetaData.Scale)))
+// the payload of a refresh (no transform): the lift of the masked decryption plus the aggregated re-encryption shares, and the common reference polynomial
+//@   ensures implies(isnil(err) && isnil(transform), val(ciphertextOut.Value[0]) == uf_lift(uf_q2t(old(val(share.EncToShareShare.Value)) + old(val(ct.Value[0])))) + old(val(share.ShareToEncShare.Value)) && val(ciphertextOut.Value[1]) == old(val(crs.Value)))
 //@   ensures implies(isnil(err), iff(ciphertextOut.MetaData.CiphertextMetaData.IsNTT, old(ct.MetaData.CiphertextMetaData.IsNTT)) && iff(ciphertextOut.MetaData.CiphertextMetaData.IsMontgomery, old(ct.MetaData.CiphertextMetaData.IsMontgomery)) && iff(ciphertextOut.MetaData.PlaintextMetaData.IsBatched, old(ct.MetaData.PlaintextMetaData.IsBatched)))
 
 // ---- encryption to shares (property C16, "share conversion ... preserve[s] the message"): a party's public
@@ -99,15 +112,6 @@ package mpbgv
 //@   let smudge = fresh(XSMUDGE, old(draws(XSMUDGE)))
 //@   ensures val(publicShareOut.Value) == old(val(ct.Value[1])) * val(sk.Value.Q) + smudge - uf_lift(val(secretShareOut.Value))
 //@   ensures draws(XSMUDGE) == old(draws(XSMUDGE)) + 1
-
-// ---- ... and the party that finishes the conversion gets, as its additive share, its own mask PLUS the reduction
-// ---- to R_t of (aggregate + c0): the masked decryption (uf_q2t names the reduction R_Q -> R_t)
-//@ afunc EncToShareProtocol.GetShare#value
-//@   property C16
-//@   requires ct.MetaData.CiphertextMetaData.IsNTT && isntt(ct.Value[0]) && isntt(aggregatePublicShare.Value) && mexp(ct.Value[0]) == 0 && mexp(aggregatePublicShare.Value) == 0 && dom(ct.Value[0]) == 1 && dom(aggregatePublicShare.Value) == 1
-//@   requires iscoef(secretShare.Value) && mexp(secretShare.Value) == 0 && dom(secretShare.Value) == 0
-//@   requires len(ct.Value[0].Coeffs) >= 1 && len(aggregatePublicShare.Value.Coeffs) >= 1
-//@   ensures val(secretShareOut.Value) == old(val(secretShare.Value)) + uf_q2t(old(val(aggregatePublicShare.Value)) + old(val(ct.Value[0])))
 
 // ---- shares to encryption: a party's share is its share of the key switch FROM the zero key on the common
 // ---- reference polynomial (-crp * s_i + one smudging draw) PLUS the lift of its additive share
